@@ -9,9 +9,10 @@ vf2 = None : order-insensitive case.  The model's VF2 oracle is the verified enu
              results are compared as MULTISETS of mappings.
 vf2 = table: order-sensitive case (result limits).  The complete enumeration of every
              GraphMatcher.subgraph_monomorphisms_iter call was recorded (by wrapping the networkx iterator)
-             at generation time and is handed to the model as its oracle; results are compared as LISTS, and the
-             model first checks inside Coq that every recorded enumeration is a permutation of the verified
-             enumerator's output (flag compared with the constant 1).
+             at generation time and is handed to the model as its oracle (lookup_or: recorded list, or the verified
+             enumerator for a call that was never recorded); results are compared as LISTS, and the model first checks
+             inside Coq that every recorded enumeration is a permutation of the verified enumerator's output (table_ok2,
+             flag compared with the constant 1; proved to imply the VF2 premise of the theorems).
 Observable: gwf flag, [table_ok flag,] components of host, components of pattern, per configuration (pre-filter verdict, result).
 """
 import itertools
@@ -45,9 +46,11 @@ TRUSTED_BASE = [
     "Coq 8.16.1 kernel + vm_compute (no native_compute)",
     "hand-written model coq/model/C06_Model.v tied to synkit/Graph/Matcher/subgraph_matcher.py by the per-run correspondence",
     "harness encoder harness/props/C06.py (attribute projection/interning, hcount default 0, threshold default 5000)",
-    "networkx VF2 subgraph_monomorphisms_iter returns a duplicate-free listing of exactly the label-preserving monomorphisms "
-    "(premise vf2_contract / oracle_ok of the theorems; monitored on every ordered case by table_ok against the verified "
-    "enumerator lib/Mono.v, which is PROVED to satisfy the premise: C06_enumerator_meets_contract / C06_enumerator_oracle_ok)",
+    "networkx VF2 subgraph_monomorphisms_iter returns a duplicate-free listing of exactly the label-preserving monomorphisms: a "
+    "premise (vf2_contract / oracle_ok) of the all-inputs theorems, NOT assumed for the cases that are run: order-insensitive "
+    "cases use the verified enumerator lib/Mono.v as the oracle (proved to satisfy the premise), order-sensitive cases use the "
+    "recorded networkx enumerations and Coq evaluates table_ok2, which is proved to imply the premise (C06_run_list_premises); "
+    "what is trusted is that the recorded table is what networkx returned to the implementation (iterator wrapper in attach_vf2)",
     "networkx Graph.copy / subgraph / connected_components (components are re-computed by the model, proved to be the "
     "connectivity classes (C06_components), and compared on every case)",
 ]
@@ -62,8 +65,9 @@ ASSUMPTIONS = ["graphs are simple undirected networkx Graphs without self-loops 
                "C06_limits_guard_reachable; accepted by the oracle"]
 TESTED_NOT_PROVED = ["inputs are not modified (pure model; the adapter deep-compares host and pattern before/after every call)",
                      "Strategy.from_string dispatch (strings 'all'/'comp'/'bt' and enum members)",
-                     "the VF2 contract itself (monitored, see TRUSTED_BASE)"]
-LEVEL_TEXT = ("Machine-checked proof (Coq, all inputs, 14 theorems closed under the global context) over an executable, "
+                     "the VF2 contract for inputs that were not run (premise of the theorems; discharged inside Coq for every case that "
+                     "is run, see TRUSTED_BASE)"]
+LEVEL_TEXT = ("Machine-checked proof (Coq, all inputs, 16 theorems closed under the global context) over an executable, "
               "structure-following model of SubgraphSearchEngine.find_subgraph_mappings parameterised by the VF2 enumeration: "
               "ALL = exactly the label-preserving monomorphisms, duplicate-free (under the VF2 contract, which the verified enumerator "
               "provably meets); COMPONENT = exactly those sending different pattern components into different host components, duplicate-free, all of "
@@ -482,8 +486,16 @@ def shrink(case, fl):
 
 def neighbours(case, rng):
     out = []
+    seen = set()
     for cfg in case["cfgs"]:
-        out.append(dict(case, cfgs=[cfg], name="neighbour-cfg"))
+        # the configuration itself, and the same limits under every strategy / strict flag (dispatch clauses such as the
+        # fallback rule only show up for particular strategy x strict x component-layout combinations)
+        for st in (cfg[0], "all", "comp", "bt"):
+            for strict in (cfg[3], not cfg[3]):
+                c2 = [st, cfg[1], cfg[2], strict, cfg[4]]
+                if tuple(c2) not in seen:
+                    seen.add(tuple(c2))
+                    out.append(dict(case, cfgs=[c2], name="neighbour-cfg"))
     for side in ("host", "pattern"):
         g = case[side]
         for n, _ in g["nodes"]:
